@@ -145,28 +145,70 @@ Definition cbrt_exact (q : Q) : Q :=
   let b := icbrt (Zpos (Qden r)) in
   inject_Z (Z.sgn (Qnum r) * a) / inject_Z b.
 
+(* ---------- bct.utils.cuberoot (miscellaneous_utilities.py:51): np.sign(x) * np.abs(x)**(1 / 3) ----------
+   [pcbrt] stands for the float power y**(1/3), only ever applied to non-negative y *)
+Definition Qsign (x : Q) : Q := if Qltb 0 x then 1 else if Qltb x 0 then - (1) else 0.       (* np.sign *)
+Definition cuberoot (pcbrt : Q -> Q) (x : Q) : Q := Qsign x * pcbrt (Qabs x).
+
+(* ---------- clustering_coef_wu_sign, coef_type == 'default' (lines 292-309), statement by statement ---------- *)
+Section SignCode.
+Variable cbrt : Q -> Q.
+Definition cc_wu_sign_default_code (n : nat) (W : mat Q) (i : nat) : Q * Q :=
+  let W0 := clear_diag W in                                   (* W = W.copy(); np.fill_diagonal(W, 0) *)
+  let W_pos := pospart W0 in                                  (* W_pos = W * (W > 0) *)
+  let K_pos := rowsum n (mmap nzQ W_pos) i in                 (* K_pos = sum(logical_not(W_pos == 0), axis=1) *)
+  let ws_pos := mmap cbrt W_pos in                            (* ws_pos = cuberoot(W_pos) *)
+  let cyc3_pos := diag3 n ws_pos i in                         (* cyc3_pos = diag(ws_pos.ws_pos.ws_pos) *)
+  let K_pos' := xmask cyc3_pos K_pos in                       (* K_pos[np.where(cyc3_pos == 0)] = np.inf *)
+  let C_pos := xdiv cyc3_pos (xkk1 K_pos') in                 (* C_pos = cyc3_pos / (K_pos * (K_pos - 1)) *)
+  let W_neg := negpart W0 in                                  (* W_neg = -W * (W < 0) *)
+  let K_neg := rowsum n (mmap nzQ W_neg) i in
+  let ws_neg := mmap cbrt W_neg in
+  let cyc3_neg := diag3 n ws_neg i in
+  let K_neg' := xmask cyc3_neg K_neg in
+  let C_neg := xdiv cyc3_neg (xkk1 K_neg') in
+  (C_pos, C_neg).
+
+(* the dispatch on coef_type (lines 292, 311, 337): two spellings of 'zhang' and 'costantini'; any other
+   string falls through every branch and the function returns None *)
+Inductive coef_type := CT_default | CT_zhang | CT_Zhang | CT_costantini | CT_Costantini | CT_other.
+Inductive sign_result := SR_pair (cpos cneg : vec Q) | SR_one (c : vec Q) | SR_none.
+Definition clustering_coef_wu_sign (n : nat) (W : mat Q) (ct : coef_type) : sign_result :=
+  match ct with
+  | CT_default => SR_pair (fun i => fst (cc_wu_sign_default_code n W i)) (fun i => snd (cc_wu_sign_default_code n W i))
+  | CT_zhang | CT_Zhang => SR_pair (fun i => fst (cc_wu_sign_zhang n W i)) (fun i => snd (cc_wu_sign_zhang n W i))
+  | CT_costantini | CT_Costantini => SR_one (cc_wu_sign_costantini n W)
+  | CT_other => SR_none
+  end.
+End SignCode.
+
 (* ---------- executable interface ---------- *)
 Definition qvec (n : nat) (f : nat -> Q) : list Q := map (fun i => Qred (f i)) (seq 0 n).
 Definition qopt (o : option Q) : option Q := match o with Some q => Some (Qred q) | None => None end.
 Definition inp (rows : list (list Q)) : mat Q := of_rows 0 rows.
 Definition run_cc_bu (rows : list (list Q)) := let n := length rows in qvec n (cc_bu n (inp rows)).
 Definition run_cc_bd (rows : list (list Q)) := let n := length rows in qvec n (cc_bd n (inp rows)).
-Definition run_cc_wu (rows : list (list Q)) := let n := length rows in qvec n (cc_wu cbrt_exact n (inp rows)).
-Definition run_cc_wd (rows : list (list Q)) := let n := length rows in qvec n (cc_wd cbrt_exact n (inp rows)).
-Definition run_cc_sign (rows : list (list Q)) (ty : nat) : list Q * list Q :=
-  let n := length rows in
+(* the cube root the runners use: the code's sign/abs decomposition around the exact root of a non-negative rational *)
+Definition cuberoot_exact : Q -> Q := cuberoot cbrt_exact.
+Definition run_cc_wu (rows : list (list Q)) := let n := length rows in qvec n (cc_wu cuberoot_exact n (inp rows)).
+Definition run_cc_wd (rows : list (list Q)) := let n := length rows in qvec n (cc_wd cuberoot_exact n (inp rows)).
+Definition ct_of_nat (ty : nat) : coef_type :=
   match ty with
-  | O => (qvec n (fun i => fst (cc_wu_sign_default cbrt_exact n (inp rows) i)),
-          qvec n (fun i => snd (cc_wu_sign_default cbrt_exact n (inp rows) i)))
-  | S O => (qvec n (fun i => fst (cc_wu_sign_zhang n (inp rows) i)),
-            qvec n (fun i => snd (cc_wu_sign_zhang n (inp rows) i)))
-  | _ => (qvec n (cc_wu_sign_costantini n (inp rows)), [])
+  | 0%nat => CT_default | 1%nat => CT_zhang | 2%nat => CT_costantini | 3%nat => CT_Zhang | 4%nat => CT_Costantini
+  | _ => CT_other end.
+(* None = the Python None of the fall-through; costantini returns one vector (second list empty) *)
+Definition run_cc_sign (rows : list (list Q)) (ty : nat) : option (list Q * list Q) :=
+  let n := length rows in
+  match clustering_coef_wu_sign cuberoot_exact n (inp rows) (ct_of_nat ty) with
+  | SR_pair cp cn => Some (qvec n cp, qvec n cn)
+  | SR_one c => Some (qvec n c, [])
+  | SR_none => None
   end.
 Definition run_trans (rows : list (list Q)) (which : nat) : option Q :=
   let n := length rows in
   qopt (match which with
         | O => trans_bu n (inp rows) | S O => trans_bd n (inp rows)
-        | S (S O) => trans_wu cbrt_exact n (inp rows) | _ => trans_wd cbrt_exact n (inp rows) end).
+        | S (S O) => trans_wu cuberoot_exact n (inp rows) | _ => trans_wd cuberoot_exact n (inp rows) end).
 Definition run_deg (rows : list (list Q)) (which : nat) : list Q :=
   let n := length rows in
   match which with
@@ -177,4 +219,4 @@ Definition run_deg (rows : list (list Q)) (which : nat) : list Q :=
   | S (S (S (S O))) => qvec n (strengths_und n (inp rows))
   | _ => qvec n (strengths_dir n (inp rows))
   end.
-Definition run_cbrt (q : Q) : Q := Qred (cbrt_exact q).
+Definition run_cbrt (q : Q) : Q := Qred (cuberoot_exact q).
